@@ -186,7 +186,10 @@ Definition gate (now : N) (fx tssproof : bytes) (c : client_state) (s : cstore) 
       | None => 3%nat
       | Some cs =>
           match sget (KPTime h) s with
-          | Some (VTime pt) => if now <? add64 pt delay then 5%nat else root_gate fx cs   (* validTime > currentTimestamp *)
+          | Some (VTime pt) =>
+              (* verifyDelayPeriodPassed: validTime < processedTime (the uint64 sum wrapped, ea14df6) || validTime > currentTimestamp *)
+              let valid := add64 pt delay in
+              if (valid <? pt) || (now <? valid) then 5%nat else root_gate fx cs
           | _ => 4%nat
           end
       end
@@ -334,7 +337,7 @@ Definition tm_update (now : N) (latest : height) (trusting drift delay : N) (res
       if negb (hv && (fst h =? fst trusted) && h_lt trusted h
                && negb (cs_ts tc + trusting <=? now)          (* trusted header within the trusting period *)
                && (cs_ts tc <? cs_ts cns)                     (* header time after the trusted time *)
-               && (cs_ts cns <=? now + drift))                (* not from the future *)
+               && (cs_ts cns <? now + drift))                 (* not from the future: header.Time.Before(now.Add(drift)) *)
       then Err else
       s1 <- tm_prune trusting now s ;;
       let latest' := if h_lt latest h then h else latest in
